@@ -559,6 +559,19 @@ fn edit_at(n: &Node, target: usize, idx: &mut usize, f: &dyn Fn(&Node) -> Option
     None
 }
 
+fn has_duplicate_key(n: &Node) -> bool {
+    if let Kind::Map(es) = &n.kind {
+        for i in 0..es.len() {
+            for j in 0..i {
+                if es[i].0 == es[j].0 {
+                    return true;
+                }
+            }
+        }
+    }
+    n.children().iter().any(|c| has_duplicate_key(c))
+}
+
 pub fn mutants(doc: &Node) -> Vec<(String, Node)> {
     let mut out = Vec::new();
     let n = doc.count();
@@ -831,6 +844,11 @@ impl Prop for C05 {
                     v.fail("wrong_value", format!("{:?} as {:?}: expected {:?}, got {:?}", text, c.ty, w, g));
                 }
             }
+            (Ref::Val(_), Err(e)) if matches!(e.without_snippet(), serde_saphyr::Error::DuplicateMappingKey { .. }) && has_duplicate_key(&doc) => {
+                // a repeated key inside content the target ignores (value of an unknown field): the default policy
+                // may still refuse the document
+                v.classes.push("duplicate_key_in_ignored_content");
+            }
             (Ref::Val(w), Err(e)) => {
                 v.fail("matching_document_rejected", format!("{:?} as {:?}: expected {:?}, got error {}", text, c.ty, w, e.to_string().lines().next().unwrap_or("")));
             }
@@ -841,6 +859,10 @@ impl Prop for C05 {
                 let mut docp = Vec::new();
                 doc_token_paths(&c.ty, &doc, "", &mut docp);
                 for (tok, path) in &have {
+                    // only tokens written exactly once identify a node (a double edit may copy an entry)
+                    if docp.iter().filter(|(t, _)| t == tok).count() != 1 || have.iter().filter(|(t, _)| t == tok).count() != 1 {
+                        continue;
+                    }
                     if let Some((_, dp)) = docp.iter().find(|(t, _)| t == tok) {
                         if dp != path {
                             v.fail("node_consumed_by_neighbouring_position", format!("{:?} as {:?}: token {} written at {} was delivered at {} in {:?}", text, c.ty, tok, dp, path, g));
